@@ -45,6 +45,8 @@
 (*                (read-check-create-update without an atomic claim)                          *)
 (*   "createNoRb" mappings:list append failed and the record just written is left behind     *)
 (*   "rbLost"     the delete of the mapping record in a rollback failed itself                *)
+(*   "reclaim"    (Reclaim only) a lost claim is treated as won because the key holds the      *)
+(*                caller's own client id: a second holder of one claim                        *)
 (*   "localClaim" (ClaimLocal only) a claim is won on one node while another node's local     *)
 (*                cache tier holds a claim for the same code (the claim is not cluster-wide)  *)
 (*                                                                                            *)
@@ -64,6 +66,10 @@ CONSTANTS Acts,       \* activator processes (each = one listen client, one Acti
           CreateRb,   \* TRUE: repaired design - CreatePortMapping deletes the record if the list append fails
           Node2,      \* processes that call through node "n2" (all others through "n1"); every node has its own
                       \* hybrid.Storage: own local cache tier, the shared cache and the persistent tier in common
+          SameAs,     \* activators that submit with the SAME listen client as "a1" (double submit / retry while the
+                      \* first request is in flight); every other activator is its own client
+          Reclaim,    \* TRUE: design variant "idempotent re-claim": a lost SetNX counts as won when the claim key
+                      \* holds the caller's own client id (read back with a Get)
           ClaimLocal, \* TRUE: the claim key is classified as node-local runtime data (each node's SetNX goes to
                       \* its own local cache) - the design the code has when the claim key leaves the shared prefix
           Emit
@@ -77,6 +83,14 @@ Clients == Acts \cup {Target}
 NodeOf(p) == IF p \in Node2 THEN "n2" ELSE "n1"
 Slots == {"shared", "n1", "n2"}                       \* where a claim key can live
 Slot(p) == IF ClaimLocal THEN NodeOf(p) ELSE "shared"  \* the tier p's SetNX / Delete of the claim key reaches
+\* Listen client of an activator. Same-client activators share the client index list (quota reads see the
+\* twin's mapping) and, on one node, the per-client quota lock (conncode.Service.lockClientQuota: taken after
+\* the validity check, held until the call returns; one lock per Service instance = per node).
+\* Singleflight (GenericRepositoryImpl.Get) still cannot coalesce: on one node the quota lock serialises
+\* everything after the validity check of two same-client calls, and each node has its own repository.
+Cl(p) == IF p \in SameAs THEN "a1" ELSE p
+LockId(p) == <<NodeOf(p), Cl(p)>>
+ASSUME SameAs # {} => (PreSet \cap (SameAs \cup {"a1"}) = {})   \* keeps every quota read at <= 1 listed id
 
 VARIABLES rec, recId,    \* the code record under its two keys: [p, act, rev, by, target]
           expired,       \* the activation TTL has elapsed (keys dropped, wall clock past ActivationExpiresAt)
@@ -86,12 +100,13 @@ VARIABLES rec, recId,    \* the code record under its two keys: [p, act, rev, by
           idkeys,        \* id-generator marks
           pc, snap, res, \* per process: program counter, snapshot read, result ("none" | "ok" | "fail")
           faultLeft,
+          qheld,         \* activators holding their (node, client) quota lock
           validSeen,     \* ghost: the code was valid at some instant since p's call
           dev,           \* ghost: deviations that occurred
           hist
-vars  == <<rec, recId, expired, claim, maps, glist, clist, idkeys, pc, snap, res, faultLeft, validSeen, dev, hist>>
-view  == <<rec, recId, expired, claim, maps, glist, clist, idkeys, pc, snap, res, faultLeft, validSeen, dev>>
-gview == <<rec, recId, expired, claim, maps, glist, clist, idkeys, pc, snap, res, faultLeft>>
+vars  == <<rec, recId, expired, claim, maps, glist, clist, idkeys, pc, snap, res, faultLeft, qheld, validSeen, dev, hist>>
+view  == <<rec, recId, expired, claim, maps, glist, clist, idkeys, pc, snap, res, faultLeft, qheld, validSeen, dev>>
+gview == <<rec, recId, expired, claim, maps, glist, clist, idkeys, pc, snap, res, faultLeft, qheld>>
 
 Rec0 == [p |-> TRUE, act |-> FALSE, rev |-> FALSE, by |-> "none", target |-> Target]
 Pre(a) == "pre_" \o a
@@ -102,17 +117,29 @@ Init == /\ rec = Rec0 /\ recId = Rec0 /\ expired = FALSE /\ claim = NoClaim
         /\ clist = [c \in Clients |-> IF c \in PreSet THEN {Pre(c)} ELSE {}]
         /\ idkeys = {}
         /\ pc = [p \in Procs |-> "idle"] /\ snap = [p \in Procs |-> Rec0] /\ res = [p \in Procs |-> "none"]
-        /\ faultLeft = MaxFault
+        /\ faultLeft = MaxFault /\ qheld = {}
         /\ validSeen = [p \in Procs |-> FALSE] /\ dev = {} /\ hist = <<>>
 
 Out(h) == IF Emit THEN PrintT("BEH " \o ToJson(h)) ELSE TRUE
-Log(p, a, f) == hist' = Append(hist, [p |-> p, a |-> a, f |-> f]) /\ Out(hist')
+\* w: after this step p waits for the quota lock (no storage gate is reached); g: the waiter that was handed
+\* the lock in this step (it runs on to its QList gate) or ""
+Handed == {q \in Procs : pc[q] = "WLock" /\ pc'[q] # "WLock"}
+Log(p, a, f) == /\ hist' = Append(hist, [p |-> p, a |-> a, f |-> f,
+                                         w |-> (p \in Procs /\ pc'[p] = "WLock"),
+                                         g |-> IF Handed = {} THEN "" ELSE CHOOSE q \in Handed : TRUE])
+                /\ Out(hist')
 
 Valid(r, e) == ~e /\ r.p /\ ~r.act /\ ~r.rev
 
 \* ---- framing helpers ---------------------------------------------------------------------
-Goto(p, l)  == pc' = [pc EXCEPT ![p] = l] /\ res' = res
-Return(p, r) == pc' = [pc EXCEPT ![p] = "done"] /\ res' = [res EXCEPT ![p] = r]
+Goto(p, l)  == pc' = [pc EXCEPT ![p] = l] /\ res' = res /\ qheld' = qheld
+\* returning releases the quota lock (deferred unlock) and hands it to a waiter at once
+Return(p, r) == LET W == {q \in Acts \ {p} : pc[q] = "WLock" /\ LockId(q) = LockId(p)} IN
+                /\ res' = [res EXCEPT ![p] = r]
+                /\ IF p \in qheld /\ W # {}
+                   THEN \E q \in W : /\ pc' = [pc EXCEPT ![p] = "done", ![q] = "QList"]
+                                     /\ qheld' = (qheld \ {p}) \cup {q}
+                   ELSE pc' = [pc EXCEPT ![p] = "done"] /\ qheld' = qheld \ {p}
 \* a failure after the claim was won releases the claim before returning
 Leave(p)    == IF Claim THEN Goto(p, "RelClaim") ELSE Return(p, "fail")
 UseFault(f) == /\ f => faultLeft > 0
@@ -130,30 +157,46 @@ Call(p) == /\ pc[p] = "idle"
 \* ---- activator ---------------------------------------------------------------------------
 Read(p) == /\ pc[p] = "Read"
            /\ IF rec.p /\ ~rec.act /\ ~rec.rev           \* expired => ~rec.p
-              THEN snap' = [snap EXCEPT ![p] = rec] /\ Goto(p, "QList")
+              THEN /\ snap' = [snap EXCEPT ![p] = rec] /\ res' = res
+                   /\ IF \E q \in qheld : LockId(q) = LockId(p)          \* lockClientQuota: taken, or wait (no gate)
+                      THEN pc' = [pc EXCEPT ![p] = "WLock"] /\ qheld' = qheld
+                      ELSE pc' = [pc EXCEPT ![p] = "QList"] /\ qheld' = qheld \cup {p}
               ELSE snap' = snap /\ Return(p, "fail")
            /\ UNCHANGED <<rec, recId, expired, claim, maps, glist, clist, idkeys, faultLeft, dev>>
            /\ Log(p, "Read", FALSE)
 
 QList(p) == /\ pc[p] = "QList"
-            /\ IF clist[p] # {} THEN Goto(p, "QGet") ELSE AfterQuota(p)
+            /\ IF clist[Cl(p)] # {} THEN Goto(p, "QGet") ELSE AfterQuota(p)
             /\ UNCHANGED <<rec, recId, expired, claim, maps, glist, clist, idkeys, snap, faultLeft, dev>>
             /\ Log(p, "QList", FALSE)
 
 QGet(p) == /\ pc[p] = "QGet"
-           /\ IF Cardinality(clist[p]) >= Quota THEN Return(p, "fail") ELSE AfterQuota(p)
+           \* one Get per listed id (at most one here); ids whose record is gone are skipped
+           /\ LET live == {m \in clist[Cl(p)] : m = Pre(Cl(p)) \/ \E x \in maps : x.id = m}
+              IN IF Cardinality(live) >= Quota THEN Return(p, "fail") ELSE AfterQuota(p)
            /\ UNCHANGED <<rec, recId, expired, claim, maps, glist, clist, idkeys, snap, faultLeft, dev>>
            /\ Log(p, "QGet", FALSE)
 
 ClaimIt(p, f) == /\ pc[p] = "Claim" /\ UseFault(f)
                  /\ IF f THEN Return(p, "fail") /\ claim' = claim /\ dev' = dev                  \* storage error: nothing to undo
-                    ELSE IF claim[Slot(p)] # "none" THEN Return(p, "fail") /\ claim' = claim /\ dev' = dev  \* somebody else holds the claim
+                    ELSE IF claim[Slot(p)] # "none"
+                         THEN /\ claim' = claim /\ dev' = dev                                  \* somebody else holds the claim
+                              /\ IF Reclaim THEN Goto(p, "ClaimGet") ELSE Return(p, "fail")
                     ELSE /\ Goto(p, "GenId")
                          /\ claim' = [claim EXCEPT ![Slot(p)] = IF expired THEN "none" ELSE p]  \* (a claim set after expiry lapses at once)
                          \* deviation: the claim is won although another node's local tier holds one for the same code
                          /\ dev' = IF \E s \in Slots \ {Slot(p)} : claim[s] # "none" THEN dev \cup {"localClaim"} ELSE dev
                  /\ UNCHANGED <<rec, recId, expired, maps, glist, clist, idkeys, snap>>
                  /\ Log(p, "Claim", f)
+
+\* design variant Reclaim only: read the claim key back; the caller's own client id in it counts as a won claim
+ClaimGet(p) == /\ pc[p] = "ClaimGet"
+               /\ LET h == claim[Slot(p)] IN
+                  IF h # "none" /\ Cl(h) = Cl(p)
+                  THEN Goto(p, "GenId") /\ dev' = dev \cup {"reclaim"}   \* deviation: a second holder of one claim
+                  ELSE Return(p, "fail") /\ dev' = dev
+               /\ UNCHANGED <<rec, recId, expired, claim, maps, glist, clist, idkeys, snap, faultLeft>>
+               /\ Log(p, "ClaimGet", FALSE)
 
 GenId(p, f) == /\ pc[p] = "GenId" /\ UseFault(f)
                /\ IF f THEN Goto(p, "GenId") /\ idkeys' = idkeys                \* Generate() retries with another candidate
@@ -169,7 +212,7 @@ CGet(p) == /\ pc[p] = "CGet"
 CSet(p, f) == /\ pc[p] = "CSet" /\ UseFault(f)
               /\ IF f THEN Goto(p, "RelId") /\ maps' = maps /\ dev' = dev
                  ELSE /\ Goto(p, "CApp")
-                      /\ maps' = maps \cup {[id |-> p, listen |-> p, target |-> snap[p].target]}
+                      /\ maps' = maps \cup {[id |-> p, listen |-> Cl(p), target |-> snap[p].target]}
                       /\ dev' = IF ~Claim /\ maps # {} THEN dev \cup {"noClaim"} ELSE dev   \* deviation: second mapping of one code, nothing claimed
               /\ UNCHANGED <<rec, recId, expired, claim, glist, clist, idkeys, snap>>
               /\ Log(p, "CSet", f)
@@ -196,7 +239,7 @@ RelId(p, f) == /\ pc[p] = "RelId" /\ UseFault(f)
                /\ Log(p, "RelId", f)
 
 IdxL(p, f) == /\ pc[p] = "IdxL" /\ UseFault(f)
-              /\ clist' = IF f THEN clist ELSE [clist EXCEPT ![p] = @ \cup {p}]
+              /\ clist' = IF f THEN clist ELSE [clist EXCEPT ![Cl(p)] = @ \cup {p}]
               /\ Goto(p, "IdxT")
               /\ UNCHANGED <<rec, recId, expired, claim, maps, glist, idkeys, snap, dev>>
               /\ Log(p, "IdxL", f)
@@ -229,7 +272,7 @@ RbGet(p) == /\ pc[p] = "RbGet"
             /\ Log(p, "RbGet", FALSE)
 
 RbRemL(p, f) == /\ pc[p] = "RbRemL" /\ UseFault(f)
-                /\ clist' = IF f THEN clist ELSE [clist EXCEPT ![p] = @ \ {p}]
+                /\ clist' = IF f THEN clist ELSE [clist EXCEPT ![Cl(p)] = @ \ {p}]
                 /\ Goto(p, "RbRemT")
                 /\ UNCHANGED <<rec, recId, expired, claim, maps, glist, idkeys, snap, dev>>
                 /\ Log(p, "RbRemL", f)
@@ -294,10 +337,10 @@ Expire == /\ CanExpire /\ ~expired
           /\ expired' = TRUE
           /\ rec' = [rec EXCEPT !.p = FALSE] /\ recId' = [recId EXCEPT !.p = FALSE]
           /\ claim' = NoClaim
-          /\ UNCHANGED <<maps, glist, clist, idkeys, pc, snap, res, faultLeft, dev>>
+          /\ UNCHANGED <<maps, glist, clist, idkeys, pc, snap, res, faultLeft, qheld, dev>>
           /\ Log("env", "Expire", FALSE)
 
-ReadSteps(p)  == Call(p) \/ Read(p) \/ QList(p) \/ QGet(p) \/ CGet(p) \/ RbGet(p) \/ RRead(p)
+ReadSteps(p)  == Call(p) \/ Read(p) \/ QList(p) \/ QGet(p) \/ ClaimGet(p) \/ CGet(p) \/ RbGet(p) \/ RRead(p)
 WriteSteps(p, f) ==
    \/ ClaimIt(p, f) \/ GenId(p, f) \/ CSet(p, f) \/ CApp(p, f) \/ CDel(p, f) \/ RelId(p, f)
    \/ IdxL(p, f) \/ IdxT(p, f) \/ UpdC(p, f) \/ UpdI(p, f)
@@ -329,11 +372,17 @@ SuccessWasValid == \A p \in Winners : validSeen[p]
 \* (3) a failed activation leaves no mapping behind
 FailedLeavesNone == \A p \in Acts : (Returned(p) /\ res[p] = "fail") => Mine(p) = {}
 \* (4) the mapping targets what the code fixed and listens for the activator
-FieldsOK == \A m \in maps : m.target = Target /\ m.listen = m.id
+FieldsOK == \A m \in maps : m.target = Target /\ m.listen = Cl(m.id)
 
 \* the same properties modulo the named deviations (the only routes to a violation in the model of the code as it is)
 AtMostOneMappingD == AtMostOneMapping \/ "noClaim" \in dev
 AtMostOneSuccessD == AtMostOneSuccess \/ "noClaim" \in dev
+\* design variant Reclaim: the properties hold only modulo the deviation "reclaim"
+AtMostOneMappingQ == AtMostOneMapping \/ "reclaim" \in dev
+AtMostOneSuccessQ == AtMostOneSuccess \/ "reclaim" \in dev
+\* the quota lock is held by at most one activator per (node, client), and only by calls in flight
+LockOK == /\ \A p, q \in qheld : (p # q) => LockId(p) # LockId(q)
+          /\ \A p \in qheld : pc[p] \notin {"idle", "done", "Read", "WLock"}
 \* a node-local claim (ClaimLocal): the properties hold only modulo the deviation "localClaim"
 AtMostOneMappingL == AtMostOneMapping \/ "localClaim" \in dev
 AtMostOneSuccessL == AtMostOneSuccess \/ "localClaim" \in dev
@@ -342,12 +391,12 @@ FailedLeavesNoneR == FailedLeavesNone \/ "rbLost" \in dev
 AtMostOneMappingR == AtMostOneMapping \/ "rbLost" \in dev
 \* the repaired design never takes the deviations it removed
 NoLegacyDev == /\ (Claim => "noClaim" \notin dev) /\ (CreateRb => "createNoRb" \notin dev)
-               /\ (~ClaimLocal => "localClaim" \notin dev)
+               /\ (~ClaimLocal => "localClaim" \notin dev) /\ (~Reclaim => "reclaim" \notin dev)
 \* repaired design: while the code has not expired, the claim holder is the only process that can be
 \* between its claim and its return (mutual exclusion of the create-mark-update section)
-InSection(p) == pc[p] \in {"GenId", "CGet", "CSet", "CApp", "CDel", "RelId", "IdxL", "IdxT", "UpdC", "UpdI",
+InSection(p) == pc[p] \in {"ClaimGet", "GenId", "CGet", "CSet", "CApp", "CDel", "RelId", "IdxL", "IdxT", "UpdC", "UpdI",
                            "RbGet", "RbRemL", "RbRemT", "RbRemG", "RbDel", "RbRelId", "RelClaim"}
-ClaimExcludes == (Claim /\ ~ClaimLocal /\ ~expired) => Cardinality({p \in Acts : InSection(p)}) <= 1
+ClaimExcludes == (Claim /\ ~ClaimLocal /\ ~Reclaim /\ ~expired) => Cardinality({p \in Acts : InSection(p)}) <= 1
 
 \* informational, NOT part of C06 (the statement is silent about index lists; kept for C17): index lists never
 \* name a mapping whose record is gone. Holds in every configuration except expiry + a failing
